@@ -201,6 +201,9 @@ pub fn run(ctx: &mut Ctx) {
         }
         ctx.class_n(&format!("history:{name}"), lines);
     }
+    if !failed {
+        e2_leg(ctx);
+    }
     ctx.extra.insert("corpus_size".into(), json!(corpus.len()));
     ctx.extra.insert("histories".into(), json!(histories.len() + 1 + envs.len()));
 }
@@ -282,4 +285,65 @@ fn scan_env_names() -> Vec<String> {
     out.retain(|n| n != "ENTRAIT_VERIF_DUMP");
     out.sort();
     out
+}
+
+/// E2 histories: the same client programs compiled by rustc four times - module order as generated vs shuffled, `-j1` vs
+/// `-j16`, plain vs perturbed environment - must give the same recorded expansion for every (macro, attr, item).
+fn e2_leg(ctx: &mut Ctx) {
+    use crate::e2::{Batch, Opts};
+    let n = ctx.n(200, 1500) as usize;
+    let tapes = crate::drive::gen_tapes(ctx.seed, 2000, n, super::c01::TAPE_LEN);
+    let cases: Vec<(String, String)> = tapes.iter().enumerate().map(|(i, tp)| (format!("c{i:05}"), super::c01::gen_case(&mut Tape::new(tp), false).src)).collect();
+    let mut maps: Vec<(String, HashMap<u64, String>)> = vec![];
+    let variants: Vec<(&str, Option<u64>, Option<usize>, Vec<(String, String)>)> = vec![
+        ("as-generated,-j16", None, Some(16), vec![]),
+        ("shuffled-modules,-j1", Some(1), Some(1), vec![]),
+        ("shuffled-modules-2,-j16,env", Some(2), Some(16), vec![("PROFILE".into(), "release".into()), ("TZ".into(), "Pacific/Kiritimati".into()), ("ENTRAIT_DEBUG".into(), "1".into()), ("LANG".into(), "tr_TR.UTF-8".into())]),
+    ];
+    for (name, shuffle, jobs, env) in variants {
+        let mut b = Batch::new(&format!("c20-e2-{}", maps.len()), Opts { feature_unimock: false, members: 4, check_only: true, jobs, env, ..Default::default() });
+        for (id, src) in &cases {
+            b.add(id, src.clone());
+        }
+        if let Some(seed) = shuffle {
+            let perm = permutation(cases.len(), 5000 + seed);
+            b.order = Some(perm.into_iter().map(|i| cases[i].0.clone()).collect());
+        }
+        let out = b.build_and_run();
+        b.cleanup();
+        let mut m: HashMap<u64, String> = HashMap::new();
+        for r in &out.records {
+            let key = stable_hash(&(&r.macro_name, tok::render(&r.attr), tok::render(&r.input)));
+            let val = r.output.as_ref().map(|o| tok::render(o)).unwrap_or_else(|| "<early return>".into());
+            if let Some(prev) = m.get(&key) {
+                if prev != &val {
+                    ctx.violation(
+                        &format!("within one build (`{name}`) the same (macro, attr, item) expanded to different tokens"),
+                        &json!({"engine": "E2", "macro": r.macro_name, "attr": tok::render(&r.attr), "item": tok::render(&r.input), "history": name}),
+                    );
+                    return;
+                }
+            }
+            m.insert(key, val);
+            ctx.count_eval();
+        }
+        ctx.class_n(&format!("e2-history:{name}"), out.records.len() as u64);
+        maps.push((name.to_string(), m));
+    }
+    let (base_name, base) = &maps[0];
+    for (name, m) in &maps[1..] {
+        for (k, v) in m {
+            if let Some(b) = base.get(k) {
+                if b != v {
+                    let (w, g) = first_diff_window(b, v);
+                    ctx.violation(
+                        &format!("real rustc builds disagree: `{base_name}` vs `{name}` expanded the same (macro, attr, item) differently: `{w}` vs `{g}`"),
+                        &json!({"engine": "E2", "history": name, "baseline_output": b, "other_output": v}),
+                    );
+                    return;
+                }
+            }
+        }
+    }
+    ctx.extra.insert("e2_builds_compared".into(), json!(maps.len()));
 }
